@@ -5,12 +5,11 @@ import Asn1Proofs.Lemmas.PerStr
   lemmas of the position tracking readers ("every read advances the offset or raises"; alignment only
   drops bits) and the loops.
 
-  The measure is the number of REMAINING bits `St.bs.length`; it never grows — not even in the one place
-  where the code moves the read position backwards (`Choice.decode` of an extension addition that read
-  past the end of its open type: the position is reset to the end of the open type, which still lies
-  behind the start of the CHOICE).  That rewind is the reason why the allocation bound of aligned PER is
-  `K * (consumed + 1) * (N + 1) ^ rewinds t` and not `K * (consumed + 1)`: see `CostPerComp.lean` and
-  the counterexample in `CostPerNeg.lean`.
+  The measure is the number of REMAINING bits `St.bs.length`; it never grows: every reader only moves
+  forward, `align_always` only drops bits.  (Before repair ace6523 of /repo there was one place where the
+  code moved the read position BACKWARDS -- `Choice.decode` of an extension addition that read past the
+  end of its open type -- and the allocation bound needed a factor `(N + 1) ^ rewinds t`; that branch is
+  a `DecodeError` now, and the bound is `KP t * (consumed + 1)` for every type, as for UPER.)
 -/
 set_option linter.unusedSimpArgs false
 set_option linter.unusedVariables false
@@ -40,25 +39,6 @@ mutual
   def KPa : Alts → Nat
     | .nil => 0
     | .cons _ t rest => KP t + KPa rest
-end
-
-mutual
-  /-- nesting depth of *rewinding* CHOICEs: extensible CHOICE types with at least one known extension
-  addition, counted along the paths the decoder can take (the additions of a type that is not
-  extensible are never decoded).  `rewinds t = 0` iff no such CHOICE is reachable. -/
-  def rewinds : Ty → Nat
-    | .sequence root ext adds => max (rewindsM root) (if ext then rewindsM adds else 0)
-    | .sequenceOf e _ => rewinds e
-    | .choice root ext adds =>
-      max (rewindsA root)
-        (if ext then (match adds with | .nil => 0 | .cons _ _ _ => rewindsA adds + 1) else 0)
-    | _ => 0
-  def rewindsM : Members → Nat
-    | .nil => 0
-    | .cons _ _ t rest => max (rewinds t) (rewindsM rest)
-  def rewindsA : Alts → Nat
-    | .nil => 0
-    | .cons _ t rest => max (rewinds t) (rewindsA rest)
 end
 
 /-! ### primitives: what a successful read consumed -/
@@ -264,32 +244,31 @@ theorem optBit_ok {c : Bool} {s r : St} {b : Bool}
 
 /-! ### loops -/
 
-/-- cost predicate of an item decoder, on states with at most `N` remaining bits: it never lengthens
-the input and the item's size is at most `K` per bit consumed (+1) -/
-def BdP {α : Type} (size : α → Nat) (K N : Nat) (p : St → DecM (α × St)) : Prop :=
-  ∀ s a r, p s = .ok (a, r) → s.bs.length ≤ N →
+/-- cost predicate of an item decoder: it never lengthens the input and the item's size is at most `K`
+per bit consumed (+1) -/
+def BdP {α : Type} (size : α → Nat) (K : Nat) (p : St → DecM (α × St)) : Prop :=
+  ∀ s a r, p s = .ok (a, r) →
     r.bs.length ≤ s.bs.length ∧ size a ≤ K * (s.bs.length - r.bs.length + 1)
 
-theorem decRepeat_ok {α : Type} {size : α → Nat} {K N : Nat} {p : St → DecM (α × St)}
-    (hp : BdP size K N p) (n : Nat) : ∀ {s r : St} {xs : List α}, decRepeat p n s = .ok (xs, r) →
-    s.bs.length ≤ N →
+theorem decRepeat_ok {α : Type} {size : α → Nat} {K : Nat} {p : St → DecM (α × St)}
+    (hp : BdP size K p) (n : Nat) : ∀ {s r : St} {xs : List α}, decRepeat p n s = .ok (xs, r) →
     r.bs.length ≤ s.bs.length ∧ xs.length = n ∧
       sumSize size xs ≤ K * (s.bs.length - r.bs.length + n) := by
   induction n with
   | zero =>
-    intro s r xs h _
+    intro s r xs h
     simp only [decRepeat] at h; cases h
     simp [sumSize]
   | succ n ih =>
-    intro s r xs h hN
+    intro s r xs h
     simp only [decRepeat] at h
     obtain ⟨⟨a, r1⟩, h1, h⟩ := bind_ok h
     try dsimp only at h
     obtain ⟨⟨as, r2⟩, h2, h⟩ := bind_ok h
     try dsimp only at h
     cases h
-    obtain ⟨hl1, hs1⟩ := hp _ _ _ h1 hN
-    obtain ⟨hl2, hn, hs2⟩ := ih h2 (by omega)
+    obtain ⟨hl1, hs1⟩ := hp _ _ _ h1
+    obtain ⟨hl2, hn, hs2⟩ := ih h2
     refine ⟨by omega, by simp [hn], ?_⟩
     simp only [sumSize]
     have e : K * (s.bs.length - r.bs.length + (n + 1))
@@ -317,22 +296,21 @@ theorem decRepeat_len {α : Type} {p : St → DecM (α × St)}
     simp only [List.length_cons]
     omega
 
-theorem decChunks_ok {α : Type} {size : α → Nat} {K N : Nat} {p : St → DecM (α × St)}
-    (hp : BdP size K N p) (f : Nat) : ∀ {s r : St} {xs : List α}, decChunks p f s = .ok (xs, r) →
-    s.bs.length ≤ N →
+theorem decChunks_ok {α : Type} {size : α → Nat} {K : Nat} {p : St → DecM (α × St)}
+    (hp : BdP size K p) (f : Nat) : ∀ {s r : St} {xs : List α}, decChunks p f s = .ok (xs, r) →
     r.bs.length ≤ s.bs.length ∧ xs.length ≤ 8192 * (s.bs.length - r.bs.length)
       ∧ sumSize size xs ≤ K * (s.bs.length - r.bs.length + xs.length) := by
   induction f with
   | zero => intro s r xs h; simp only [decChunks] at h; cases h
   | succ f ih =>
-    intro s r xs h hN
+    intro s r xs h
     simp only [decChunks] at h
     obtain ⟨⟨len, r1⟩, h1, h⟩ := bind_ok h
     try dsimp only at h
     obtain ⟨hl1, hlen⟩ := readLenDet_ok h1
     obtain ⟨⟨ys, r2⟩, h2, h⟩ := bind_ok h
     try dsimp only at h
-    obtain ⟨hl2, hn, hs2⟩ := decRepeat_ok hp len h2 (by omega)
+    obtain ⟨hl2, hn, hs2⟩ := decRepeat_ok hp len h2
     try dsimp only at h
     revert h
     split
@@ -343,7 +321,7 @@ theorem decChunks_ok {α : Type} {size : α → Nat} {K N : Nat} {p : St → Dec
       obtain ⟨⟨zs, r3⟩, h3, h⟩ := bind_ok h
       try dsimp only at h
       cases h
-      obtain ⟨hl3, hz, hs3⟩ := ih h3 (by omega)
+      obtain ⟨hl3, hz, hs3⟩ := ih h3
       refine ⟨by omega, by simp only [List.length_append]; omega, ?_⟩
       rw [Cost.sumSize_append, List.length_append]
       have e : K * (r1.bs.length - r2.bs.length + len) + K * (r2.bs.length - r.bs.length + zs.length)
@@ -402,23 +380,5 @@ theorem decChunksBits_ok (u : Nat) (f : Nat) : ∀ {s r : St} {xs : Bits},
       cases h
       have := ih h3
       simp only [List.length_append]; omega
-
-/-! ### arithmetic with the rewind factor `(N + 1) ^ d` -/
-
-theorem pw_pos (N d : Nat) : 1 ≤ (N + 1) ^ d := Nat.pow_pos (Nat.succ_pos N)
-
-theorem pw_mono (N : Nat) {d d' : Nat} (h : d ≤ d') : (N + 1) ^ d ≤ (N + 1) ^ d' :=
-  Nat.pow_le_pow_right (by omega) h
-
-/-- weaken a bound `a ≤ (K * (N+1)^d) * (c+1)` in all its parameters -/
-theorem bdP_mono {a K K' N d d' c c' : Nat} (h : a ≤ K * (N + 1) ^ d * (c + 1))
-    (hK : K ≤ K') (hd : d ≤ d') (hc : c ≤ c') : a ≤ K' * (N + 1) ^ d' * (c' + 1) :=
-  Nat.le_trans h (Nat.mul_le_mul (Nat.mul_le_mul hK (pw_mono N hd)) (by omega))
-
-/-- a constant is absorbed by the factor: `k + A * P ≤ (k + A) * P` -/
-theorem absorb {k A P : Nat} (hP : 1 ≤ P) : k + A * P ≤ (k + A) * P := by
-  rw [Nat.add_mul]
-  have : k * 1 ≤ k * P := Nat.mul_le_mul_left _ hP
-  omega
 
 end Asn1.CostP
